@@ -26,6 +26,7 @@ type Ctx struct {
 	validators   map[*ssa.Function]*ssa.Function
 	ctorOnlyMemo map[string]bool
 	markersSeen  map[int64]bool
+	genericEmitters int
 }
 
 // Info is the descriptive part of the evidence.
